@@ -157,6 +157,18 @@ def run(ctx):  # noqa: C901, PLR0912, PLR0915
                                   for t, p in g.facts_at(n)) for n in tr)
     ctx.ob('C06.R3', 'accept only when not invalid', ok, 'True is returned only on the path where the state is not '
            '`invalid`', fi=pc)
+    app = [n for n, c in g.nodes_calling('append') if '_buffered_notifications' in unparse(c.func)]
+    ok = bool(app)
+    for n in app:
+        inner = [b for b in g.nodes if b.kind == 'branch' and b.label is True and
+                 unparse(b.test) == 'self._state == ConsumerMdibState.initializing' and
+                 g.held_withs(b, '_buffered_notifications_lock')]
+        ok = ok and bool(g.held_withs(n, '_buffered_notifications_lock')) and any(g.dominates(b, n) for b in inner)
+    ctx.ob('C06.R3', 'buffering re-checks the state under the lock', ok,
+           'a report is put into the buffer only inside the buffer lock and after `initializing` was confirmed there' if ok
+           else 'a report is appended to the buffer on the strength of the unlocked state check alone: when reload_all '
+                'finished its replay in between, the report stays in the buffer and is never applied (lost report)',
+           fi=pc)
     ck = repo.method(CM, '_check_sequence_or_instance_id_changed')
     g = cfg_of(ck)
     inval = [n for n in g.real_nodes() if n.kind == 'stmt' and isinstance(n.stmt, ast.Assign) and
